@@ -541,6 +541,26 @@ Fixpoint accepted_txs (txs : list tx) (vs : list (option txres)) : list tx :=
   | _, _ => []
   end.
 
+(* ------------------------------------------------------------------ pool: the senders cache in the authorisation path *)
+
+(* TxPool.addQiTxs admits a Qi transaction only after ValidateQiTxInputs AND
+   ValidateQiTxOutputsAndSignature (output / fee rules: abstract predicate outs_ok; signature: the same
+   Schnorr / MuSig2 check over the carried keys as ProcessQiTx, bit t_sigok); only admitted transactions are
+   put into qiPool and their hash sent to sendersCh -> senders cache (also addQiTxsWithoutValidationLocked:
+   fee already cached by an earlier admission, or the same two checks). *)
+Definition pool_admit (outs_ok : tx -> bool) (c : ctx) (l : ledger) (t : tx) : bool :=
+  validate_inputs c l t && outs_ok t && t_sigok t.
+Definition pool_gossip (outs_ok : tx -> bool) (c : ctx) (l : ledger) (cache : list (list N)) (txs : list tx)
+  : list (list N) :=
+  cache ++ map t_hash (filter (pool_admit outs_ok c l) txs).
+
+(* StateProcessor.Process: checkSig := tx.Hash() not in the pool's senders cache (PeekSenderNoLock) *)
+Definition set_checksig (b : bool) (t : tx) : tx :=
+  mkTx (t_hash t) (t_chain_ok t) (t_ins t) (t_outs t) (t_data t) (t_intrinsic t) b (t_sigok t).
+Definition via_cache (cache : list (list N)) (t : tx) : tx := set_checksig (negb (amem (t_hash t) cache)) t.
+Definition run_block_via_pool (cache : list (list N)) (l : ledger) (c : ctx) (txs : list tx) :=
+  run_block true l c (map (via_cache cache) txs).
+
 (* ------------------------------------------------------------------ correspondence check *)
 
 Record txobs := mkObs {
@@ -577,15 +597,48 @@ Definition block_matches (m : list txres * bool * ledger) (o : blockobs) : bool 
   let '(os, ok', l') := o in
   list_eqb res_matches rs os && Bool.eqb ok ok' && ledger_eqb l l'.
 
+Inductive pstep :=
+| PGossip (c : ctx) (txs : list tx) (admitted cached : list bool)
+| PBlock (c : ctx) (txs : list tx) (checksigs : list bool) (obs : list blockobs).
+
 Inductive case_body :=
 (* a chain of blocks through ProcessQiTx with batch.SetPending(tracks); one observation list per backend *)
 | CProc (tracks : bool) (base : ledger) (blocks : list (ctx * list tx)) (obs : list (list blockobs))
 (* one pending block through the worker: verdict per tx (with observation when accepted), final env,
    and ValidateQiTxInputs' verdict for each tx against the same database *)
 | CWorker (base : ledger) (c : ctx) (txs : list tx) (verdicts : list (option txobs))
-          (gp used rlim plim : N) (mempool : list bool).
+          (gp used rlim plim : N) (mempool : list bool)
+(* gossip phases and processed blocks with a real pool in front (see pool_run_ok) *)
+| CPool (base : ledger) (steps : list pstep).
 
 Definition case := (N * case_body)%type.
+
+Fixpoint select {A} (xs : list A) (bs : list bool) : list A :=
+  match xs, bs with
+  | x :: xr, true :: br => x :: select xr br
+  | _ :: xr, false :: br => select xr br
+  | _, _ => []
+  end.
+
+(* a pool scenario: gossip phases against the current ledger (observed: admitted / cached bits per delivery)
+   and processed blocks whose checkSig comes from the cache.  The output/fee rules of the pool are not
+   modelled: the observed admission is checked to IMPLY ValidateQiTxInputs and the signature bit (pool_admit
+   for some outs_ok), the observed cache to be exactly the hashes admitted so far. *)
+Fixpoint pool_run_ok (l : ledger) (cache : list (list N)) (steps : list pstep) : bool :=
+  match steps with
+  | [] => true
+  | PGossip c txs adm cached :: r =>
+      let cache' := cache ++ map t_hash (select txs adm) in
+      list_eqb (fun t a => implb a (amem (t_hash t) cache || (validate_inputs c l t && t_sigok t))) txs adm
+      && list_eqb (fun t cd => Bool.eqb cd (amem (t_hash t) cache')) txs cached
+      && pool_run_ok l cache' r
+  | PBlock c txs cs obs :: r =>
+      let txs' := map (via_cache cache) txs in
+      let m := run_block true l c txs' in
+      list_eqb Bool.eqb (map t_checksig txs') cs
+      && forallb (block_matches m) obs
+      && pool_run_ok (snd m) cache r
+  end.
 
 Definition wverdict_matches (m : option txres) (o : option txobs) : bool :=
   match m, o with
@@ -606,6 +659,7 @@ Definition case_ok (cs : case) : bool :=
       list_eqb wverdict_matches vs verdicts
       && (w_gp e =? gp) && (w_used e =? used) && (w_rlim e =? rlim) && (w_plim e =? plim)
       && list_eqb Bool.eqb (map (validate_inputs c base) txs) mempool
+  | CPool base steps => sortedb base && pool_run_ok base [] steps
   end.
 
 Definition mismatches (cs : list case) : list N :=
